@@ -26,7 +26,10 @@ ChangeLists == { <<Ch("add", "a1", <<"v2">>)>>, <<Ch("add", "a3", <<"v1", "v2">>
                  \* several changes of different attributes in one request, after a delete (slice positions shift)
                  <<Ch("delete", "a1", <<>>), Ch("replace", "a2", <<"v3">>)>>,
                  <<Ch("delete", "a2", <<>>), Ch("add", "password", <<"q">>), Ch("add", "a3", <<"v1">>)>>,
-                 <<Ch("add", "a3", <<"v2">>), Ch("delete", "a1", <<>>), Ch("replace", "password", <<"q">>)>> }
+                 <<Ch("add", "a3", <<"v2">>), Ch("delete", "a1", <<>>), Ch("replace", "password", <<"q">>)>>,
+                 \* the same attribute twice in one request: delete it, then add it again
+                 <<Ch("delete", "a1", <<>>), Ch("add", "a1", <<"v2">>)>>,
+                 <<Ch("delete", "a2", <<>>), Ch("add", "a2", <<"v3", "v1">>), Ch("add", "a2", <<"v2">>)>> }
 TG1 == [s \in {"S1"} |-> <<Entry("t1", <<Attr("a1", <<"v1">>)>>), Entry("t2", <<>>)>>]
 \* the property only speaks of replace on entries that have the attribute: generate only those
 HasAttr(dn, n) == \E i \in Indices(users, dn) : IndexOfLast(users[i].attrs, n, Len(users[i].attrs)) > 0
